@@ -18,7 +18,7 @@ from typing import Any, Iterator
 
 import pyarrow as pa
 
-from harness.common import svcgen
+from harness.common import opsvc, svcgen
 
 TYPES: dict[str, pa.DataType] = {
     "int64": pa.int64(), "int32": pa.int32(), "int16": pa.int16(), "int8": pa.int8(), "uint8": pa.uint8(),
@@ -77,6 +77,8 @@ def instrumented(decl: pa.Schema | None = None, cancel_raises: bool = False, net
 
     saved_schema, saved_make = svcgen.IN_SCHEMA, svcgen.make_input
     saved_process, saved_cancel = svcgen.ScriptState.process, svcgen.ScriptState.on_cancel
+    # op-level steps (an ordered list of collector calls per process()) are played by opsvc.OpState
+    saved_oschema, saved_oprocess, saved_ocancel = opsvc.IN_SCHEMA, opsvc.OpState.process, opsvc.OpState.on_cancel
     saved_post, saved_mint = _testing._SyncTestClient.post, _app_stream._mint_cursor_token
     saved_init = rpc_client.StreamSession.__init__
     saved_connect = http_pkg.http_connect
@@ -105,6 +107,15 @@ def instrumented(decl: pa.Schema | None = None, cancel_raises: bool = False, net
         if cancel_raises:
             raise RuntimeError("on_cancel hook failure")
 
+    def oprocess(self: Any, input: Any, out: Any, ctx: Any) -> None:
+        svcgen.EVENTS.append(("insch", schema_fields(input.batch.schema)))
+        return saved_oprocess(self, input, out, ctx)
+
+    def ocancel(self: Any, ctx: Any) -> None:
+        saved_ocancel(self, ctx)
+        if cancel_raises:
+            raise RuntimeError("on_cancel hook failure")
+
     def post(self: Any, url: str, **kw: Any) -> Any:
         svcgen.EVENTS.append(("http", url.rsplit("/", 1)[-1]))
         k = posts[0]
@@ -128,6 +139,10 @@ def instrumented(decl: pa.Schema | None = None, cancel_raises: bool = False, net
         svcgen.make_input = make_input
         svcgen.ScriptState.process = process  # type: ignore[method-assign]
         svcgen.ScriptState.on_cancel = on_cancel  # type: ignore[method-assign]
+        if decl is not None:
+            opsvc.IN_SCHEMA = decl
+        opsvc.OpState.process = oprocess  # type: ignore[method-assign]
+        opsvc.OpState.on_cancel = ocancel  # type: ignore[method-assign]
         _testing._SyncTestClient.post = post  # type: ignore[method-assign]
         _app_stream._mint_cursor_token = mint
         rpc_client.StreamSession.__init__ = ss_init  # type: ignore[method-assign]
@@ -136,6 +151,8 @@ def instrumented(decl: pa.Schema | None = None, cancel_raises: bool = False, net
     finally:
         svcgen.IN_SCHEMA, svcgen.make_input = saved_schema, saved_make
         svcgen.ScriptState.process, svcgen.ScriptState.on_cancel = saved_process, saved_cancel  # type: ignore[method-assign]
+        opsvc.IN_SCHEMA = saved_oschema
+        opsvc.OpState.process, opsvc.OpState.on_cancel = saved_oprocess, saved_ocancel  # type: ignore[method-assign]
         _testing._SyncTestClient.post = saved_post  # type: ignore[method-assign]
         _app_stream._mint_cursor_token = saved_mint
         rpc_client.StreamSession.__init__ = saved_init  # type: ignore[method-assign]
@@ -164,7 +181,8 @@ def run_ops(desc: dict[str, Any], method: str, ops: list[list[Any]], cfg: svcgen
         return ev
 
     def body() -> None:
-        P, impl = svcgen.build(desc)
+        op_level = any("ops" in st for mm in desc["methods"] for st in mm.get("steps", []))
+        P, impl = (opsvc.build if op_level else svcgen.build)(desc)
         conn = svcgen.Conn(P, impl, cfg, lambda m: cur.append(svcgen._ev_log(m)))
         sess: Any = None
         it: Any = None
